@@ -5,20 +5,29 @@ package session
 import (
 	"bytes"
 	"context"
+	"crypto/tls"
+	"encoding/base64"
+	"encoding/hex"
 	"encoding/json"
 	"errors"
 	"fmt"
 	"io"
 	"net"
+	"os"
 	"strings"
 	"time"
 
 	mail "github.com/wneessen/go-mail"
+	maillog "github.com/wneessen/go-mail/log"
 
 	"verif/harness/pipeconn"
 	"verif/harness/rec"
 	"verif/harness/refsmtp"
+	"verif/harness/sasl"
 )
+
+// TLSDir is where the CA certificate is written (set by main).
+var TLSDir = os.TempDir()
 
 // EnvChoice is one fault of a scenario.
 type EnvChoice struct {
@@ -44,6 +53,157 @@ type Cfg struct {
 	Noenc    bool     `json:"noenc"`
 	Hostkind string   `json:"hostkind"`
 	Logauth  bool     `json:"logauth"`
+	Debug    bool     `json:"debug"`
+	Starttls bool     `json:"starttls"`
+	Authlist []string `json:"authlist"`
+	Hs       string   `json:"hs"`
+	Caps2    []string `json:"caps2"`
+	Logger   string   `json:"logger"` // capture (default), std, json
+}
+
+// Credentials of the one account the reference server knows.
+const (
+	User = "verif.user@example.test"
+	Pass = "s3cr3t-Passw0rd!of-verif"
+)
+
+// CredScan reports whether text carries the password in clear, or inside any base64 token
+// (AUTH PLAIN initial response, LOGIN password step, XOAUTH2 bearer token), or hex encoded.
+func CredScan(pass string) func(string) bool {
+	return func(text string) bool {
+		if strings.Contains(text, pass) {
+			return true
+		}
+		if strings.Contains(strings.ToLower(text), hex.EncodeToString([]byte(pass))) {
+			return true
+		}
+		for _, tok := range strings.FieldsFunc(text, func(r rune) bool {
+			return !(r >= 'A' && r <= 'Z' || r >= 'a' && r <= 'z' || r >= '0' && r <= '9' || r == '+' || r == '/' || r == '=')
+		}) {
+			if len(tok) < 8 {
+				continue
+			}
+			for _, enc := range []*base64.Encoding{base64.StdEncoding, base64.RawStdEncoding} {
+				if dec, err := enc.DecodeString(tok); err == nil && bytes.Contains(dec, []byte(pass)) {
+					return true
+				}
+			}
+		}
+		return false
+	}
+}
+
+var authTypes = map[string]mail.SMTPAuthType{
+	"PLAIN": mail.SMTPAuthPlain, "PLAIN-NOENC": mail.SMTPAuthPlainNoEnc, "LOGIN": mail.SMTPAuthLogin,
+	"LOGIN-NOENC": mail.SMTPAuthLoginNoEnc, "CRAM-MD5": mail.SMTPAuthCramMD5, "XOAUTH2": mail.SMTPAuthXOAUTH2,
+	"SCRAM-SHA-1": mail.SMTPAuthSCRAMSHA1, "SCRAM-SHA-256": mail.SMTPAuthSCRAMSHA256,
+	"SCRAM-SHA-1-PLUS": mail.SMTPAuthSCRAMSHA1PLUS, "SCRAM-SHA-256-PLUS": mail.SMTPAuthSCRAMSHA256PLUS,
+	"AUTODISCOVER": mail.SMTPAuthAutoDiscover,
+}
+
+// logTap receives one formatted record per Write (standard and JSON loggers) or per call
+// (custom logger) and turns it into a log event.
+type logTap struct {
+	r    *rec.Recorder
+	scan func(string) bool
+}
+
+func (l *logTap) record(dir, text string) {
+	l.r.Emit("log", "dir", dir, "leak", l.scan(text), "redacted", strings.Contains(text, "<SMTP auth data redacted>"),
+		"text", clipS(text, 300), "post", false, "verbatim", true)
+}
+
+func (l *logTap) Write(p []byte) (int, error) {
+	t := string(p)
+	dir := "s2c"
+	if strings.Contains(t, "C --> S") || strings.Contains(t, `"from":"client"`) {
+		dir = "c2s"
+	}
+	l.record(dir, t)
+	return len(p), nil
+}
+
+func (l *logTap) logf(x maillog.Log) {
+	dir := "s2c"
+	if x.Direction == maillog.DirClientToServer {
+		dir = "c2s"
+	}
+	l.record(dir, fmt.Sprintf(x.Format, x.Messages...))
+}
+func (l *logTap) Debugf(x maillog.Log) { l.logf(x) }
+func (l *logTap) Infof(x maillog.Log)  { l.logf(x) }
+func (l *logTap) Warnf(x maillog.Log)  { l.logf(x) }
+func (l *logTap) Errorf(x maillog.Log) { l.logf(x) }
+
+func clipS(s string, n int) string {
+	if len(s) > n {
+		return s[:n]
+	}
+	return s
+}
+
+// "post" means: after the AUTH exchange ended successfully (235). A failed exchange ends the
+// dial; the "*" and QUIT that smtp.Client.Auth itself issues belong to the exchange.
+// PostProcessLogs pairs the k-th client-to-server log record with the k-th command the server read
+// (the client logs every command exactly once, before writing it) and the k-th server-to-client
+// record with the k-th reply, and fills in: post (the paired command comes after the end of the
+// AUTH exchange) and verbatim (the record shows the wire text).
+func PostProcessLogs(evs []rec.Ev) {
+	var cmds, replies, c2s, s2c []int
+	afterEod := false
+	authReply := -1 // index into replies of the reply to the last AUTH / AUTHRESP / ABORT command
+	lastAuth := -1  // index into cmds of that command
+	pendingAuth := false
+	authOK := -1 // index into cmds of the command that was answered with 235
+	for i, e := range evs {
+		switch e["ev"] {
+		case "cmd":
+			if u, _ := e["unexpected_clear"].(bool); u {
+				continue
+			}
+			cmds = append(cmds, i)
+			afterEod = false
+			switch e["verb"] {
+			case "AUTH", "AUTHRESP", "ABORT":
+				lastAuth = len(cmds) - 1
+				pendingAuth = true
+			default:
+				pendingAuth = false
+			}
+		case "eod":
+			afterEod = true
+		case "reply":
+			if afterEod { // dataCloser.Close reads this reply without logging it
+				afterEod = false
+				continue
+			}
+			replies = append(replies, i)
+			if code, _ := e["code"].(int); pendingAuth && code == 235 {
+				authReply = len(replies) - 1
+				authOK = lastAuth
+			}
+		case "log":
+			if e["dir"] == "c2s" {
+				c2s = append(c2s, i)
+			} else {
+				s2c = append(s2c, i)
+			}
+		}
+	}
+	for k, i := range c2s {
+		if k >= len(cmds) {
+			break
+		}
+		line, _ := evs[cmds[k]]["line"].(string)
+		text, _ := evs[i]["text"].(string)
+		evs[i]["post"] = authOK >= 0 && k > authOK
+		evs[i]["verbatim"] = strings.Contains(text, line)
+	}
+	for k, i := range s2c {
+		red, _ := evs[i]["redacted"].(bool)
+		evs[i]["post"] = authReply >= 0 && k > authReply
+		evs[i]["verbatim"] = !red
+	}
 }
 
 // Scenario is one terminal behaviour emitted by TLC.
@@ -337,7 +497,38 @@ func (rn *Runner) Run() {
 			return
 		}
 	}
-	rn.srv = refsmtp.New(refsmtp.Config{Caps: cfg.Caps, Faults: faults, Addr: addr, Expected: expected}, r)
+	scan := CredScan(Pass)
+	caps := append([]string{}, cfg.Caps...)
+	caps2 := append([]string{}, cfg.Caps2...)
+	if len(cfg.Authlist) > 0 {
+		caps = append(caps, "AUTH "+strings.Join(cfg.Authlist, " "))
+		caps2 = append(caps2, "AUTH "+strings.Join(cfg.Authlist, " "))
+	}
+	if cfg.Starttls {
+		caps = append(caps, "STARTTLS")
+	}
+	scfg := refsmtp.Config{Caps: caps, Caps2: caps2, Faults: faults, Addr: addr, Expected: expected, CredScan: scan}
+	if cfg.Starttls || cfg.Policy == "mandatory" || cfg.Policy == "opportunistic" {
+		mat, err := refsmtp.Material(TLSDir)
+		if err != nil {
+			rn.Infra = err
+			return
+		}
+		scfg.TLS = mat.ServerConfig(cfg.Hs, 0)
+		scfg.HSGarbage = cfg.Hs == "garbage"
+		scfg.HSStall = cfg.Hs == "stall"
+		if cfg.Hs == "stall" {
+			rn.stall = true
+		}
+	}
+	if cfg.Authtype != "" && cfg.Authtype != "NOAUTH" {
+		scfg.Auth = func(st *tls.ConnectionState) refsmtp.AuthHandler {
+			return &refsmtp.HonestAuth{Creds: sasl.Creds{User: User, Pass: Pass}, NormUser: User, NormPass: Pass,
+				Salt: []byte("verif-salt-0123"), Iter: 64, NonceSuffix: "srvNonce" + fmt.Sprint(rn.T),
+				Challenge: fmt.Sprintf("<%d.verif@refsmtp.test>", rn.T), TLS: st}
+		}
+	}
+	rn.srv = refsmtp.New(scfg, r)
 
 	dial := func(ctx context.Context, network, address string) (net.Conn, error) {
 		cl, sv := pipeconn.Pipe()
@@ -350,9 +541,38 @@ func (rn *Runner) Run() {
 	if rn.stall {
 		timeout = StallTimeout
 	}
+	policy := mail.NoTLS
+	switch cfg.Policy {
+	case "mandatory":
+		policy = mail.TLSMandatory
+	case "opportunistic":
+		policy = mail.TLSOpportunistic
+	}
 	opts := []mail.Option{
-		mail.WithDialContextFunc(dial), mail.WithTLSPolicy(mail.NoTLS), mail.WithTimeout(timeout),
+		mail.WithDialContextFunc(dial), mail.WithTLSPolicy(policy), mail.WithTimeout(timeout),
 		mail.WithHELO("client.test"),
+	}
+	if at, ok := authTypes[cfg.Authtype]; ok {
+		opts = append(opts, mail.WithSMTPAuth(at), mail.WithUsername(User), mail.WithPassword(Pass))
+	}
+	if cfg.Debug {
+		tap := &logTap{r: r, scan: scan}
+		switch cfg.Logger {
+		case "std":
+			opts = append(opts, mail.WithLogger(maillog.New(tap, maillog.LevelDebug)))
+		case "json":
+			opts = append(opts, mail.WithLogger(maillog.NewJSON(tap, maillog.LevelDebug)))
+		default:
+			opts = append(opts, mail.WithLogger(tap))
+		}
+		opts = append(opts, mail.WithDebugLog())
+	}
+	if cfg.Logauth {
+		opts = append(opts, mail.WithLogAuthData())
+	}
+	host := "mail.example.test"
+	if cfg.Hostkind == "localhost" {
+		host = "localhost"
 	}
 	if cfg.Nonoop {
 		opts = append(opts, mail.WithoutNoop())
@@ -366,7 +586,7 @@ func (rn *Runner) Run() {
 		opts = append(opts, mail.WithDSNMailReturnType(mail.DSNMailReturnFull),
 			mail.WithDSNRcptNotifyType(mail.DSNRcptNotifyFailure))
 	}
-	c, err := mail.NewClient("mail.example.test", opts...)
+	c, err := mail.NewClient(host, opts...)
 	if err != nil {
 		rn.Infra = err
 		return
@@ -405,6 +625,20 @@ func (rn *Runner) Run() {
 		var serr error
 		el := rn.timed(func() { serr = c.DialAndSend(msgs...) })
 		sendRet("DialAndSend", serr, el)
+	case "Reset":
+		r.Emit("call", "op", "Dial")
+		var derr error
+		el := rn.timed(func() { derr = c.DialWithContext(context.Background()) })
+		r.Emit("ret", "op", "Dial", "err", derr != nil, "elapsed", el, "text", clip(derr))
+		if derr == nil {
+			r.Emit("call", "op", "Reset")
+			var rerr error
+			el = rn.timed(func() { rerr = c.Reset() })
+			r.Emit("ret", "op", "Reset", "err", rerr != nil, "elapsed", el, "text", clip(rerr))
+			var cerr error
+			el = rn.timed(func() { cerr = c.Close() })
+			r.Emit("ret", "op", "Close", "err", cerr != nil, "elapsed", el, "text", clip(cerr))
+		}
 	case "Dial":
 		r.Emit("call", "op", "Dial")
 		var derr error
